@@ -118,3 +118,4 @@ def _call_exit(E, outcome, value, env, prefix):
 contract('DocumentTemplate.DT_Var.Call.__init__',
          params=dict(self=Obj('DocumentTemplate.DT_Var.Call', lazy=False, prov='fresh'), args=Opaque(), encoding=Opaque()),
          exit_hook=_call_exit, raises=['ParseError', 'SyntaxError'], uses=[PP, NP])
+
